@@ -22,7 +22,8 @@ def qv(x):
 
 
 def pulse_facts(pulse):
-    """<<dur, a0, a1, amax, aavg, d0, d1, max|det| (rounded 1e-6), min det (rounded), finite>>"""
+    """<<dur, a0, a1, amax, aavg, d0, d1, max|det| (rounded 1e-6), min det (rounded), finite,
+    max det (rounded)>>"""
     a = np.asarray(pulse.amplitude.samples.as_array(detach=True), dtype=float)
     d = np.asarray(pulse.detuning.samples.as_array(detach=True), dtype=float)
     fin = bool(np.all(np.isfinite(a)) and np.all(np.isfinite(d)))
@@ -33,8 +34,9 @@ def pulse_facts(pulse):
         dm = np.nanmax(rd) if not np.all(np.isnan(rd)) else float("nan")
         rn = np.round(d, 6)
         dn = np.nanmin(rn) if not np.all(np.isnan(rn)) else float("nan")
+        dx = np.nanmax(rn) if not np.all(np.isnan(rn)) else float("nan")
     return [int(pulse.duration), qv(a[0]), qv(a[-1]), qv(am), qv(av), qv(d[0]), qv(d[-1]),
-            qv(dm), qv(dn), 1 if fin else 0]
+            qv(dm), qv(dn), 1 if fin else 0, qv(dx)]
 
 
 def fall_times(pulse, ch_obj):
@@ -89,9 +91,14 @@ def project(seq, ctx):
             amp, don, doff = float(b.rabi_freq), float(b.detuning_on), float(b.detuning_off)
             blocks.append({"ti": int(b.ti), "tf": -1 if b.tf is None else int(b.tf),
                            "sp": ctx.sp_lookup(cid, amp, don, doff),
-                           "amp": qv(amp), "don": qv(don), "doff": qv(doff),
-                           "dofm": int(round(doff * 1000))})
-        ent = {"nm": ctx.nm_of(name), "cid": cid, "sl": slots, "eb": blocks,
+                           "amp": qv(amp), "don": qv(don), "doff": qv(doff)})
+        if isinstance(cs, _DMMSchedule):
+            wts = np.asarray(cs.detuning_map.weights, dtype=float)
+            mp = [int(round(2 * float(np.max(wts)))), int(round(2 * float(np.sum(wts))))]
+            wt = bool(cs._waiting_for_first_pulse)
+        else:
+            mp, wt = [0, 0], False
+        ent = {"nm": ctx.nm_of(name), "cid": cid, "sl": slots, "eb": blocks, "wt": wt, "mp": mp,
                "du": int(cs.get_duration()), "df": int(cs.get_duration(include_fall_time=True))}
         chans.append(ent)
     refs = []
@@ -103,16 +110,18 @@ def project(seq, ctx):
             qs.append({"lu": int(r.last_used), "ts": [int(t) for t in r.phase._times],
                        "ps": [ctx.ph(p) for p in r.phase._phases]})
         refs.append({"b": basis, "q": qs})
-    slm = 0
+    slm, slm_nm = 0, 0
     if seq._slm_mask_dmm is not None:
         from pulser.channels.dmm import _dmm_id_from_name
         slm = ctx.cid_of(_dmm_id_from_name(seq._slm_mask_dmm))
+        if seq._in_ising and seq._slm_mask_dmm in seq._schedule:
+            slm_nm = ctx.nm_of(seq._slm_mask_dmm)
     return {
         "dev": ctx.dev_index,
         "mode": "xy" if seq._in_xy else ("ising" if seq._in_ising else "none"),
         "meas": getattr(seq, "_measurement", ""),
         "empty": bool(seq._empty_sequence),
-        "slmDmm": slm,
+        "slmDmm": slm, "slmNm": slm_nm, "slmTg": ids_to_mask(seq._slm_mask_targets),
         "ch": chans,
         "rf": refs,
         "lg": [c.name for c in seq._calls[1:]],
